@@ -20,6 +20,7 @@ pub fn world_for(prop: &str) -> Option<Box<dyn World>> {
         "C06" => h(HProp::C06),
         "C08" => hx("C08", HProp::C08, XProp::C08),
         "C09" => h(HProp::C09),
+        "C10" => Some(Box::new(simcore::bytes_world::BytesWorld) as Box<dyn World>),
         "C11" => Some(Box::new(simcore::tendril_world::TendrilWorld { prop: simcore::tendril_world::TProp::C11 }) as Box<dyn World>),
         "C12" => Some(Box::new(simcore::tendril_world::TendrilWorld { prop: simcore::tendril_world::TProp::C12 }) as Box<dyn World>),
         "C13" => Some(Box::new(simcore::bufqueue_world::QueueWorld) as Box<dyn World>),
